@@ -402,7 +402,10 @@ def tmode_specs(tier):
             dict(kind="cdc", depth=8, dw=16), dict(kind="cdc", depth=16, dw=12, buffered=True),
             dict(kind="cdc", depth=8, dw=8, common_rst=1, rst=3),
             dict(kind="bus", width=8, timeout=128), dict(kind="bus", width=16, timeout=128),
-            dict(kind="pulse")]
+            dict(kind="pulse"),
+            # tokens whose upper bits travel as param field and first/last flags through the FIFO wrapper
+            dict(kind="cdc", depth=8, dw=14, pw=4, fl=1), dict(kind="asyncfifo", depth=8, dw=9, pw=3, fl=1, buffered=True),
+            dict(kind="cdc", depth=4, dw=6, pw=2, fl=1, buffered=True), dict(kind="asyncfifo", depth=4, dw=5, pw=2)]
     L = []
     for di, d in enumerate(duts):
         for ci, clk in enumerate(CLOCKS):
